@@ -23,7 +23,7 @@ BOUND = {"quick": "all 6561 lattice fields for delta = 0.95 x the binding displa
          "thorough": "all 6561 fields for both deltas on two bases and both numberings; series product with deviation bound 3"}
 ASSUMPTIONS = ["bounds of the statement are evaluated on the generated geometry: displacement < 0.5 x smallest junction spacing (both frames), < 8% of the extent "
                "of the interface end points of both frames, bounding-box shape change < 10% of that extent; instances outside give no verdict"]
-REQUIRED_TAGS = {"all": ["inside_bounds", "outside_bounds", "renumbered", "cm", "guess_true", "guess_wrong", "len>2", "roundtrip_checked", "binding:spacing", "binding:extent"]}
+REQUIRED_TAGS = {"all": ["inside_bounds", "outside_bounds", "renumbered", "cm", "guess_true", "guess_wrong", "len>2", "roundtrip_checked", "binding:spacing", "binding:extent", "large_length_unit", "small_length_unit"]}
 
 VMAPS = [["id"], ["rev"], ["gap", 3, 7], ["off", 10 ** 6], ["rot", 5], ["swap0"]]
 
@@ -219,11 +219,12 @@ class Series(ProductSystem):
 
     def axes(self, base):
         return {"motion": MOTIONS, "level": LEVELS, "L": [2, 3, 4, 6], "vm0": VMAPS, "vm1": VMAPS, "vm2": VMAPS,
-                "cm": [False, True], "guess": [["none"], ["true", 0], ["true", 3], ["wrong", 0], ["wrong", 2], ["wrong", 5]]}
+                "cm": [False, True], "guess": [["none"], ["true", 0], ["true", 3], ["wrong", 0], ["wrong", 2], ["wrong", 5]],
+                "unit": [1.0, 1e3, 1e-3, 512.0, 1e-6]}       # length unit: every bound of the statement is relative
 
     def eval_config(self, base, cfg):
         at = tissue_for(base[0], base[1])
-        cm = SC.make_cmap(["m", 0.05, 0.02], 0.2, (0, 0), 1.0, SC.extent_of(bases.get(base[0])))
+        cm = SC.make_cmap(["m", 0.05, 0.02], 0.2, (0, 0), cfg["unit"], SC.extent_of(bases.get(base[0])))
         pos = junction_positions(at, cm)
         real = real_junctions(at)
         P = [pos[j] for j in real]
@@ -264,7 +265,9 @@ class Series(ProductSystem):
             tags.append("cm")
         if L > 2:
             tags.append("len>2")
-        cls = "%s/%s/%d/%s/%s" % (m, cfg["level"], L, cfg["cm"], cfg["guess"][0])
+        if cfg["unit"] != 1.0:
+            tags.append("large_length_unit" if cfg["unit"] > 1 else "small_length_unit")
+        cls = "%s/%s/%d/%s/%s/%s" % (m, cfg["level"], L, cfg["cm"], cfg["guess"][0], cfg["unit"])
         return {"viol": viol, "tags": sorted(set(tags)), "cls": cls, "nontrivial": m != "rest"}
 
 
